@@ -7,12 +7,14 @@ B == BOOLEAN
 Item(k, id, form, doc, trail, gen, named, marked, lookalike, nmeth, short, oneline, mdoc, after, gap) ==
   [k |-> k, id |-> id, form |-> form, doc |-> doc, trail |-> trail, gen |-> gen, named |-> named, marked |-> marked,
    lookalike |-> lookalike, nmeth |-> nmeth, short |-> short, oneline |-> oneline, mdoc |-> mdoc, after |-> after, gap |-> gap,
-   long |-> FALSE, nm |-> "std", mention |-> FALSE]
+   long |-> FALSE, nm |-> "std", mention |-> FALSE, gen2 |-> FALSE]
 \* long: the first line of the item's comment is much longer than the directive line below it
 WithLong(it) == [it EXCEPT !.long = TRUE]
 \* mention: a prose line of the item's doc comment (for a converter interface: of each method's doc comment) names a
 \* directive in the middle of the line ("... see //go:generate in the manual"); it is prose and stays where it is
 WithMention(it, m) == [it EXCEPT !.mention = m]
+\* gen2: the go:generate line of the item is followed directly by a second directive line
+WithGen2(it, g) == [it EXCEPT !.gen2 = g]
 \* nm: how a marked converter interface is called - "std"; "prefix": the name of the file's other converter interface
 \* followed by more letters (ConvergenStorage next to Convergen); "long": forty characters; "alias": the standard name, declared in the alias
 \* form type X = interface {...}; "recvsame": the standard
@@ -27,7 +29,9 @@ Float(id) == Item("float", id, "float", FALSE, FALSE, FALSE, FALSE, FALSE, FALSE
 \* a floating comment whose last line is a go:generate line, below a long line
 FloatGen(id) == WithLong([Float(id) EXCEPT !.gen = TRUE])
 
-LayE(items, pkgdoc, build, imports, sibling, embed) == [items |-> items, pkgdoc |-> pkgdoc, build |-> build, imports |-> imports, sibling |-> sibling, embed |-> embed]
+LayE(items, pkgdoc, build, imports, sibling, embed) == [items |-> items, pkgdoc |-> pkgdoc, build |-> build, imports |-> imports, sibling |-> sibling, embed |-> embed, pkggen |-> FALSE]
+\* pkggen: a go:generate line stands directly above the package clause (below the package documentation, if there is one)
+WithPkgGen(l, g) == [l EXCEPT !.pkggen = g]
 Lay(items, pkgdoc, build, imports, sibling) == LayE(items, pkgdoc, build, imports, sibling, "none")
 Rest == i = 1 /\ out = << >> /\ rejected = FALSE /\ pc = "find"
 
@@ -53,9 +57,10 @@ Dozen(tight, rot) ==
 InitAcceptOne ==
      \E named \in B, doc \in B, gen \in B, short \in B, after \in B, gap \in {0, 1}, pre \in Pres :
      \E post \in {q \in Posts : q = << >> \/ ~(named /\ q[1].named)} :      \* only one interface can be called Convergen
-       \/ \E nmeth \in {1, 2}, mdoc \in B, trail \in B :
-            layout = Lay(pre \o <<ConvShape("c1", named, doc, gen, nmeth, short, FALSE, mdoc, trail, after, gap)>> \o post,
-                         FALSE, "gobuild", "none", "none")
+       \/ \E nmeth \in {1, 2}, mdoc \in B, trail \in B, pkggen \in B :
+            /\ (pkggen => pre = << >> /\ post = << >> /\ ~trail)
+            /\ layout = WithPkgGen(Lay(pre \o <<ConvShape("c1", named, doc, gen, nmeth, short, FALSE, mdoc, trail, after, gap)>> \o post,
+                                       FALSE, "gobuild", "none", "none"), pkggen)
        \* the setup file dot-imports a package and a notation names one of its functions bare
        \/ \E nmeth \in {1, 2}, mdoc \in B :
             layout = Lay(pre \o <<ConvShape("c1", named, doc, gen, nmeth, short, FALSE, mdoc, FALSE, after, gap)>> \o post,
@@ -73,19 +78,21 @@ InitAccept ==
   /\ Rest
 
 \* ---- C11: declarations and comments around a converter interface x file-level attributes
-DeclAttrs == {<<FALSE, FALSE, FALSE, FALSE>>, <<TRUE, FALSE, FALSE, FALSE>>, <<TRUE, TRUE, FALSE, FALSE>>, <<TRUE, FALSE, TRUE, FALSE>>, <<FALSE, TRUE, FALSE, FALSE>>, <<FALSE, FALSE, TRUE, FALSE>>,
-              <<TRUE, FALSE, FALSE, TRUE>>, <<TRUE, FALSE, TRUE, TRUE>>}      \* doc, trailing comment, go:generate line, mention
+DeclAttrs == {<<FALSE, FALSE, FALSE, FALSE, FALSE>>, <<TRUE, FALSE, FALSE, FALSE, FALSE>>, <<TRUE, TRUE, FALSE, FALSE, FALSE>>, <<TRUE, FALSE, TRUE, FALSE, FALSE>>, <<FALSE, TRUE, FALSE, FALSE, FALSE>>, <<FALSE, FALSE, TRUE, FALSE, FALSE>>,
+              <<TRUE, FALSE, FALSE, TRUE, FALSE>>, <<TRUE, FALSE, TRUE, TRUE, FALSE>>,
+              <<TRUE, FALSE, TRUE, FALSE, TRUE>>, <<TRUE, TRUE, TRUE, FALSE, TRUE>>}      \* doc, trailing comment, go:generate line, mention, second directive line
 Forms == {"var", "func", "type", "const", "varblock", "method", "blockvar"}
 \* an ordinary interface whose doc comment has lines that begin with a colon (they are prose, not notations of a converter)
 Look(id) == Intf(id, FALSE, FALSE, TRUE, TRUE, FALSE, 1, FALSE, FALSE, FALSE, FALSE, FALSE, 1)
 InitCarry ==
-  /\ \E named \in B, form1 \in Forms, a1 \in DeclAttrs, mid \in {"none", "float", "floatgen"}, long1 \in B, second \in B, pkgdoc \in B, after \in B,
+  /\ \E named \in B, form1 \in Forms, a1 \in DeclAttrs, mid \in {"none", "float", "floatgen"}, long1 \in B, second \in B, pkgdoc \in B, after \in B, pkggen \in B,
         build \in {"gobuild", "plusbuild", "both"}, imports \in {"none", "used", "mixed"} :
-       \E post \in {<< >>, <<Look("lk")>>} \cup {<<WithMention(Decl("post", f, a[1], a[2], a[3]), a[4])>> : f \in {"func", "type", "varblock"}, a \in DeclAttrs} :
+       \E post \in {<< >>, <<Look("lk")>>} \cup {<<WithGen2(WithMention(Decl("post", f, a[1], a[2], a[3]), a[4]), a[5])>> : f \in {"func", "type", "varblock"}, a \in DeclAttrs} :
          /\ (long1 => a1[1] /\ a1[3] /\ form1 \in {"var", "func", "type"})
          /\ (second => mid = "none" /\ ~long1 /\ build = "gobuild" /\ imports = "none")      \* a long doc line matters above a go:generate line only
-         /\ (long1 => ~a1[4])
-         /\ layout = Lay(<<IF long1 THEN WithLong(Decl("pre", form1, a1[1], a1[2], a1[3])) ELSE WithMention(Decl("pre", form1, a1[1], a1[2], a1[3]), a1[4])>>
+         /\ (long1 => ~a1[4] /\ ~a1[5])
+         /\ (pkggen => mid = "none" /\ ~long1 /\ ~second /\ imports = "none" /\ form1 \in {"var", "func"})
+         /\ layout = WithPkgGen(Lay(<<IF long1 THEN WithLong(Decl("pre", form1, a1[1], a1[2], a1[3])) ELSE WithGen2(WithMention(Decl("pre", form1, a1[1], a1[2], a1[3]), a1[4]), a1[5])>>
                       \o (CASE mid = "float" -> <<Float("fl")>> [] mid = "floatgen" -> <<FloatGen("fl")>> [] OTHER -> << >>)
                       \* method docs (present when the interface is called Convergen) mention a directive when the declaration above does
                       \o <<WithMention(ConvShape("c1", named, ~named, FALSE, 2, FALSE, FALSE, named, after, after, 1), named /\ a1[4])>>
@@ -93,7 +100,7 @@ InitCarry ==
                       \* a second converter interface further down whose name sorts BEFORE the first one's: blocks are
                       \* generated in name order but belong where their interfaces stood
                       \o (IF second THEN <<Medium("c0", FALSE)>> ELSE << >>),
-                      pkgdoc, build, imports, "none")
+                      pkgdoc, build, imports, "none"), pkggen)
   /\ Rest
 
 \* ---- C17: mixes of interfaces x sibling files
@@ -105,6 +112,8 @@ Mk(kind, id) == CASE kind = "named"     -> Medium(id, TRUE)
                   [] kind = "tmark"     -> TMark(id)
                   [] kind = "vmark"     -> VMark(id)
 Emb == Intf("emb", FALSE, FALSE, FALSE, TRUE, FALSE, 1, FALSE, FALSE, FALSE, FALSE, FALSE, 1)
+Emb2 == Intf("emb2", FALSE, FALSE, FALSE, TRUE, FALSE, 1, FALSE, FALSE, FALSE, FALSE, FALSE, 1)
+EmbItems(embed) == IF embed = "dup" THEN <<Emb, Emb2>> ELSE <<Emb>>
 \* at most one interface may be called Convergen in one file
 OneNamed(ks) == Cardinality({j \in DOMAIN ks : ks[j] = "named"}) <= 1
 InitSelect ==
@@ -115,11 +124,11 @@ InitSelect ==
             /\ (sibling = "named" => \A j \in DOMAIN ks : ks[j] # "named")
             /\ LET its == [j \in 1..n |-> Mk(ks[j], CASE j = 1 -> "i1" [] j = 2 -> "i2" [] OTHER -> "i3")]
                    hasConv == \E j \in 1..n : ks[j] \in {"named", "marked"} IN
-               \E embed \in {"none", "file", "sibling"}, embFirst \in B :
+               \E embed \in {"none", "file", "sibling", "dup", "redecl"}, embFirst \in B :
                  /\ (embed # "none" => hasConv)
-                 /\ (embed # "file" => ~embFirst)
+                 /\ (embed \in {"none", "sibling"} => ~embFirst)
                  \* the embedded interface of this file is an unmarked interface like any other, before or after its user
-                 /\ layout = LayE(IF embed = "file" THEN (IF embFirst THEN <<Emb>> \o its ELSE its \o <<Emb>>) ELSE its,
+                 /\ layout = LayE(IF embed \in {"file", "dup", "redecl"} THEN (IF embFirst THEN EmbItems(embed) \o its ELSE its \o EmbItems(embed)) ELSE its,
                                   TRUE, "gobuild", "used", sibling, embed)
      \* two converter interfaces whose names are related: one is called like the other plus more letters, or has forty
      \* characters; either one first; loosely or tightly packed; a third, unmarked interface may follow
